@@ -2,5 +2,5 @@
 # Builds nothing heavy yet; checks rebuild from /repo's working tree on each run.
 set -e
 cd "$(dirname "$0")"
-mkdir -p build evidence replays
+mkdir -p build evidence replays selftest
 exit 0
